@@ -774,6 +774,16 @@ func (e *Engine) verifyChain() *Fail {
 		}
 	}
 	disks := r.ListDisks()
+	if len(disks) != len(chain) {
+		var extra []string
+		for d := range disks {
+			if !seen[d] {
+				extra = append(extra, d)
+			}
+		}
+		sort.Strings(extra)
+		return fail("listdisks|not-in-chain|after="+e.lastOp, fmt.Sprintf("ListDisks reports %v which are not members of the chain %v", extra, chain), "C12")
+	}
 	for i, d := range chain {
 		di, ok := disks[d]
 		if !ok {
